@@ -195,3 +195,46 @@ fn c03_encrypt_decrypt_roundtrip_4() {
     let dec = decrypt_record(ct, v, seq, &b, &key, &iv).unwrap();
     assert!(dec[..] == pt[..]);
 }
+
+// ---- key plumbing the gate depends on (RFC 5246 6.3)
+/// create_session_crypto: the cached client/server write ciphers are built from the client/server
+/// write KEYS of the same SessionKeys (no role mix-up) and the keys are carried over unchanged.
+/// Checked through the public AEAD API: sealing with the cached cipher == sealing with a cipher
+/// freshly built from the corresponding key.
+#[kani::proof]
+#[kani::unwind(24)]
+fn c03_create_session_crypto_binds_keys_to_roles() {
+    let ck: [u8; 16] = kani::any();
+    let sk: [u8; 16] = kani::any();
+    let keys = SessionKeys { client_write_key: ck.to_vec(), server_write_key: sk.to_vec(), client_write_iv: vec![3; 4], server_write_iv: vec![4; 4],
+        master_secret: Vec::new(), client_random: Vec::new(), server_random: Vec::new() };
+    let c = create_session_crypto(keys).unwrap();
+    assert!(c.keys.client_write_key[..] == ck[..] && c.keys.server_write_key[..] == sk[..]);
+    assert!(c.keys.client_write_iv[..] == [3; 4] && c.keys.server_write_iv[..] == [4; 4]);
+    let nonce = [9u8; 12];
+    let aad = [1u8, 2, 3];
+    let mut a = [5u8, 6, 7, 8]; let mut b = a; let mut x = a; let mut y = a;
+    let ta = c.client_write_cipher.encrypt_in_place_detached(Nonce::from_slice(&nonce), &aad, &mut a).unwrap();
+    let tb = Aes128Gcm::new_from_slice(&ck).unwrap().encrypt_in_place_detached(Nonce::from_slice(&nonce), &aad, &mut b).unwrap();
+    let tx = c.server_write_cipher.encrypt_in_place_detached(Nonce::from_slice(&nonce), &aad, &mut x).unwrap();
+    let ty = Aes128Gcm::new_from_slice(&sk).unwrap().encrypt_in_place_detached(Nonce::from_slice(&nonce), &aad, &mut y).unwrap();
+    assert!(a == b && ta == tb && x == y && tx == ty);
+    core::mem::forget(c);
+}
+/// expand_keys: key_block = PRF(master_secret, "key expansion", server_random || client_random) and
+/// client_write_key | server_write_key | client_write_IV | server_write_IV are cut from it in that order
+#[kani::proof]
+#[kani::unwind(70)]
+fn c03_expand_keys_block_order() {
+    let ms: [u8; 4] = kani::any();
+    let cr: [u8; 2] = kani::any();
+    let sr: [u8; 2] = kani::any();
+    let k = expand_keys(&ms, &cr, &sr).unwrap();
+    let seed = [sr[0], sr[1], cr[0], cr[1]];
+    let kb = prf_sha256(&ms, b"key expansion", &seed, 40).unwrap();
+    assert!(kb.len() == 40);
+    assert!(k.client_write_key[..] == kb[0..16] && k.server_write_key[..] == kb[16..32]);
+    assert!(k.client_write_iv[..] == kb[32..36] && k.server_write_iv[..] == kb[36..40]);
+    assert!(k.master_secret[..] == ms[..] && k.client_random[..] == cr[..] && k.server_random[..] == sr[..]);
+    core::mem::forget(k);
+}
